@@ -6,7 +6,7 @@ from .. import core, addsweep
 from ..core import Shard, run, align_lines, res_replay
 from ..oracle import cal, dur
 
-CALS = ["ymd", "ymcw", "yd", "ywd", "bizda", "ldn"]
+CALS = ["ymd", "ymcw", "yd", "ywd", "bizda", "ldn", "mdn"]
 N_LIST = list(range(1, 13)) + list(range(19, 24)) + list(range(60, 67)) + list(range(250, 263)) + [1305]
 WDN = ["Mon", "Tue", "Wed", "Thu", "Fri", "Sat", "Sun"]
 
